@@ -67,6 +67,11 @@ def run(ctx):
         lay = harness.random_layout(rng, comments=True)
         lay.comments = True
         texts.append(docs.render(doc, lay)[0])
+    # directed: CR / CRLF / other separators inside token values, CRLF documents with and without comments
+    texts += ['MAP\r\n NAME "two\r\nlines"\r\n LAYER\r\n  TYPE POINT\r\n  DATA \'a\rb\'\r\n END\r\nEND\r\n',
+              'MAP\r\n NAME "x" # c1\r\n WEB\r\n  METADATA\r\n   "k" "multi\r\nline value" # c2\r\n  END\r\n END\r\nEND\r\n',
+              'MAP\n NAME "ls\u2028sep\x0cff" # c\n LAYER\n  TYPE POINT\n  FILTER ("[a]" = "cr\r\nlf")\n END\nEND\n',
+              'LAYER\r TYPE POINT\r NAME "only\rcr"\rEND\r']
     flags = [(False, False), (True, False), (False, True), (True, True)]
     # ---- correspondence under the four flag combinations
     if ctx.model_ok:
